@@ -90,6 +90,15 @@ rewrite !mxE big_distrl /= big_distrl /=. apply: eq_bigr => i _.
 by rewrite mul_dg_l !mxE.
 Qed.
 
+Lemma pa_rhs_mx :
+  cv nl (pa_rhs fo nt MT w mu La y) = Mx^T *m dg nt w *m cv nt y + dg nl (fun i => (La i)^-1) *m cv nl mu.
+Proof.
+apply/matrixP => i j; rewrite !mxE /pa_rhs fold_add /= add0r. congr (_ + _).
+- apply: eq_bigr => n _. by rewrite mul_dg_r !mxE.
+- rewrite (bigD1 i) //= !mxE eqxx big1 ?addr0; first by rewrite mulrC.
+  by move=> k Hk; rewrite !mxE eq_sym (negbTE Hk) mul0r.
+Qed.
+
 Lemma dg_mul k (d e : arr1 F) : dg k d *m dg k e = dg k (fun a => d a * e a).
 Proof.
 apply/matrixP => a b; rewrite mul_dg_l !mxE.
@@ -162,6 +171,29 @@ move=> HY HU Hw HL HA B r.
 have [H1 [_ H3]] := kernel_value_gaussian (lg:=lg) (pi_:=pi_) (pw:=pw) (mn:=mn) (ab:=ab) (inf:=inf) mu y U Hw HL HA.
 exists (mx2 nt nt (pBinv fo nl MT w Y)); split; [exact: H1|split; [exact: (mulmx1C H1)|]].
 by rewrite (worker_value_marginal fo orc nt nl s0 Y U HY HU) -H3.
+Qed.
+
+(* posterior path: the vector the generated worker leaves in `a` is the conditional posterior mean
+   A (Lambda^-1 mu + M^T C_s^-1 y), A the inverse of the matrix it leaves in Ainv = Lambda^-1 + M^T C_s^-1 M; the returned value
+   is the marginal path's *)
+Theorem worker_posterior_is_conditional (Y U : arr2 F) (x : arr1 F) :
+  o_inv orc nl (Atmp_arg fo nt nl s0) = Some Y ->
+  o_lu orc nt (Btmp_arg fo nt nl s0) = Some U ->
+  o_solve orc nl (fun a b => if in2 nl nl a b then pAinv fo nt MT w La a b else Y a b)
+              (fun a => if Nat.ltb a nl then pa_rhs fo nt MT w mu La y a else v_a s0 a) = Some x ->
+  let Ainv := dg nl (fun i => (La i)^-1) + (Mx nt nl MT)^T *m dg nt w *m Mx nt nl MT in
+  Ainv *m cv nl x = cv nl (pa_rhs fo nt MT w mu La y) ->     (* the solver's contract *)
+  let s' := fst (likelihood_worker fo orc (Z.of_nat nt) (Z.of_nat nl) 1%Z s0) in
+  mx2 nl nl (v_Ainv s') = Ainv /\
+  Ainv *m cv nl (v_a s') = (Mx nt nl MT)^T *m dg nt w *m cv nt y + dg nl (fun i => (La i)^-1) *m cv nl mu /\
+  snd (likelihood_worker fo orc (Z.of_nat nt) (Z.of_nat nl) 1%Z s0) = snd (likelihood_worker fo orc (Z.of_nat nt) (Z.of_nat nl) 0%Z s0).
+Proof.
+move=> HY HU Hx Ainv Hsolve s'.
+have [H1 [H2 H3]] := worker_posterior fo orc nt nl s0 Y U x HY HU Hx.
+split; [|split].
+- rewrite /Ainv -(pAinv_mx lg pi_ pw mn ab inf). apply/matrixP => i j; rewrite !mxE. by apply: H3; apply/ltP.
+- by rewrite /s' H2 Hsolve pa_rhs_mx.
+- by rewrite H1 (worker_value_marginal fo orc nt nl s0 Y U HY HU).
 Qed.
 End Capstone.
 
